@@ -246,10 +246,16 @@ func VerifC17_X2(v *VerifV) {
 	var made []*types.Transaction
 	gases := []uint64{20000, 35000, 50000} // below intrinsic gas / fits a low block limit / needs the high one
 	// pre-population: PRE cheap remote transactions, the last account gets one (the cheapest), the first the rest
+	batch := v.Param("BATCH") == 1
+	var allDirty *accountSet
+	pre1 := v.Param("PRE1") // how many of the PRE transactions belong to the last account (0 = one)
+	if pre1 == 0 {
+		pre1 = 1
+	}
 	for k := 0; k < pre; k++ {
 		from, nonce := 0, uint64(k)
-		if k == pre-1 && na > 1 {
-			from, nonce = na-1, 0
+		if k >= pre-pre1 && na > 1 {
+			from, nonce = na-1, uint64(k-(pre-pre1))
 		}
 		price := big.NewInt(int64(2 + k%2))
 		if from != 0 {
@@ -263,11 +269,27 @@ func VerifC17_X2(v *VerifV) {
 		if errs[0] != nil {
 			v.Fail("C17.setup.prepopulation-rejected: " + errs[0].Error())
 		}
+		if batch {
+			// a batch of submissions is followed by one reorg run
+			if allDirty == nil {
+				allDirty = dirty
+			} else {
+				allDirty.merge(dirty)
+			}
+			continue
+		}
 		pool.runReorg(make(chan struct{}), nil, dirty, map[cmn.Address]*txSortedMap{})
+	}
+	if batch && allDirty != nil {
+		pool.runReorg(make(chan struct{}), nil, allDirty, map[cmn.Address]*txSortedMap{})
 	}
 	if pre > 0 {
 		verifPoolInvariant(v, pool, head, na, true)
-		v.Assert(pool.all.Count() == pre, "C17.setup.prepopulation-incomplete")
+		if uint64(pre) <= cfg.GlobalSlots {
+			v.Assert(pool.all.Count() == pre, "C17.setup.prepopulation-incomplete")
+		} else if pool.all.Count() < pre {
+			v.Cover("truncated-during-setup")
+		}
 	}
 	for step := 0; step < K; step++ {
 		nk := 3
